@@ -14,6 +14,7 @@ ConcatKeyImpl(p) == IF p.type = "xb" /\ p.key = "" THEN "xb"
                     ELSE IF p.type = "x" /\ p.key = "0" THEN "x0"
                     ELSE IF p.type = "xb" /\ p.key = "0" THEN "xb0"
                     ELSE IF p.type = "xb" /\ p.key = "b" THEN "xbb"
+                    ELSE IF p.type = "x" /\ p.key = "b0" THEN "xb0"
                     ELSE IF p.key = "" THEN p.type ELSE IF p.key = "0" THEN <<p.type, "0">> ELSE <<p.type, p.key>>
 NodeIdx(n) == IF n = R THEN 0 ELSE IF n = "A" THEN 1 ELSE IF n = "B" THEN 2 ELSE 3
 
@@ -44,7 +45,8 @@ GraphOps ==
 \* timestamp carries one fixed point (distinct timestamps per identity)
 RawKey(nk, ts) == IF nk = "0" THEN (IF ts % 2 = 1 THEN "" ELSE "0") ELSE nk
 LPt(type, nk, ts) == Pt(type, RawKey(nk, ts), ts, ts, IF ts % 3 = 0 THEN 1 ELSE 0, IF ts % 2 = 0 THEN "o" ELSE "")
-LwwIdents == {<<"x", "0">>, <<"x", "b">>, <<"xb", "0">>}
+\* ("x","b0") and ("xb","0") also concatenate alike (after key normalisation)
+LwwIdents == {<<"x", "0">>, <<"x", "b">>, <<"xb", "0">>, <<"x", "b0">>}
 LwwUniverse == {LPt(i[1], i[2], ts) : i \in LwwIdents, ts \in 1..MaxTs}
 LwwBatches == {<<p>> : p \in LwwUniverse} \cup {<<p, q>> : p \in LwwUniverse, q \in LwwUniverse}
 LwwOps == {Np("A", Batch(b, "")) : b \in LwwBatches} \cup {Ep("A", R, Batch(b, "")) : b \in LwwBatches}
@@ -61,6 +63,11 @@ ShapeOps == CASE Shape = "diamond" -> <<Create("A", R), Create("B", R), Create("
               [] Shape = "chain"   -> <<Create("A", R), Create("B", "A"), Create("C", "B")>>
               [] Shape = "mirror"  -> <<Create("A", R), Create("B", R), Create("C", "A"), Create("C", "B"),
                                         Ep("C", "B", Batch(<<Tomb(2, 1)>>, "")), Np("C", Batch(<<VPt("C", 1)>>, ""))>>
+              \* a deleted edge at the bottom / at the top of a chain: cycles through deleted edges,
+              \* rebroadcast of edge points above a deleted ancestor edge, re-adding
+              [] Shape = "delbottom" -> <<Create("A", R), Create("B", "A"), Ep("B", "A", Batch(<<Tomb(2, 1)>>, ""))>>
+              [] Shape = "deltop"  -> <<Create("A", R), Create("B", "A"), Create("C", "B"),
+                                        Ep("A", R, Batch(<<Tomb(2, 1)>>, ""))>>
               [] OTHER             -> <<>>
 RECURSIVE ApplyAll(_, _, _)
 ApplyAll(st, ops, i) == IF i > Len(ops) THEN st ELSE ApplyAll(Apply(st, ops[i]).s, ops, i + 1)
